@@ -2,6 +2,7 @@ package props
 
 import (
 	"fmt"
+	"strings"
 
 	"verifharness/core"
 	"verifharness/gen"
@@ -29,6 +30,61 @@ type feedOpts struct {
 	boundaryQ            int  // quick number of boundary base documents (default 4)
 	boundaries           bool // long documents corrupted at positions round 64, 128, ..., 65536 (chunked scanners)
 	alignment            bool // runs of every token class at every length 0..40 x special byte x tail length (word-at-a-time scanners)
+	strRuns              bool // strings made of N directly adjacent escapes of one kind (N in 0..140 and round powers of two) + a closer, as value and key
+	numShapes            int  // number tokens over a grid of (integer, fraction, exponent) digit counts; the value is the number of contexts (1..4), 0 = skip
+}
+
+// numShapeLens are the digit counts of the number-shape grid: round every power of two up to
+// 4096, the 15..20-digit limits of the integer and float fast paths, and the 800-digit buffer
+// of the float fallback.
+var numShapeLens = []int{1, 2, 8, 15, 16, 17, 19, 20, 32, 64, 127, 128, 129, 255, 256, 257, 800, 801, 1024, 4097}
+
+// numShapeExpLens are exponent digit counts (0 = no exponent).
+var numShapeExpLens = []int{0, 1, 2, 3, 5, 6, 19, 20, 33, 129}
+
+// numShape builds a number token with li integer digits, lf fraction digits (0 = none) and le
+// exponent digits (0 = none); v varies sign, digit values, exponent letter and sign.
+func numShape(buf []byte, li, lf, le, v int) []byte {
+	if v&1 == 1 {
+		buf = append(buf, '-')
+	}
+	if li == 1 && v&2 == 2 {
+		buf = append(buf, '0')
+	} else {
+		for i := 0; i < li; i++ {
+			d := byte('0' + (i*7+v+1)%10)
+			if i == 0 && d == '0' {
+				d = '9'
+			}
+			buf = append(buf, d)
+		}
+	}
+	if lf > 0 {
+		buf = append(buf, '.')
+		for i := 0; i < lf; i++ {
+			buf = append(buf, byte('0'+(i*3+v)%10))
+		}
+	}
+	if le > 0 {
+		buf = append(buf, "eE"[v>>2&1])
+		switch v >> 3 % 3 {
+		case 1:
+			buf = append(buf, '+')
+		case 2:
+			buf = append(buf, '-')
+		}
+		for i := 0; i < le; i++ {
+			d := byte('0' + (i+v)%10)
+			if le <= 3 && i == 0 && d == '0' {
+				d = '3'
+			}
+			if le > 3 && i < le-2 {
+				d = '0' // long exponents are mostly leading zeros, so values stay in range
+			}
+			buf = append(buf, d)
+		}
+	}
+	return buf
 }
 
 var defaultNestDepths = []int{1, 2, 3, 5, 17, 64, 9998, 9999, 10000, 10001, 10002, 20000}
@@ -157,6 +213,77 @@ func (e *env) feed(o feedOpts, f inputFn) {
 								report("alignment", buf, err)
 								break align
 							}
+						}
+					}
+				}
+			}
+		}
+	}
+
+	// 2b". escape runs: strings of N adjacent escapes of one kind, then a closer, top-level,
+	// as array member, object value and object key (batching decoders, look-back windows
+	// that count backslashes, scratch growth inside members)
+	if o.strRuns && e.enumStage("strruns", "strings of N adjacent escapes (N in 0..140, 254..258, 1022..1026) of 6 unit kinds + 5 closers x {top-level, array member, object value, object key}", true) {
+		units := []string{`\u00e9`, `\u0041`, `\n`, `\ud83d\ude00`, `\"`, `\\`}
+		closers := []string{`\ud83d\ude00`, `\ud83d`, `\\`, `z`, ``}
+		var ns []int
+		for n := 0; n <= 140; n++ {
+			ns = append(ns, n)
+		}
+		for _, base := range []int{256, 1024} {
+			for n := base - 2; n <= base+2; n++ {
+				ns = append(ns, n)
+			}
+		}
+		ctxs := [][2]string{{"", ""}, {"[1,", ",2]"}, {`{"a":`, `,"b":[]}`}, {"{", `:true}`}}
+		idx := 0
+	strruns:
+		for _, n := range ns {
+			for _, u := range units {
+				idx++
+				if !cfg.Mine(idx) {
+					continue
+				}
+				for ci, cl := range closers {
+					cx := ctxs[(idx+ci)%len(ctxs)]
+					b := append([]byte(cx[0]), '"')
+					b = append(b, strings.Repeat(u, n)...)
+					b = append(append(append(b, cl...), '"'), cx[1]...)
+					if err := call("strruns", b); err != nil {
+						report("strruns", b, err)
+						break strruns
+					}
+				}
+			}
+		}
+	}
+
+	// 2b'. number shapes: every combination of integer / fraction / exponent digit counts from
+	// the grids above (a part of a number is scanned by its own loop or helper, and what
+	// follows a long part is decided after it)
+	if o.numShapes > 0 && e.enumStage("numshapes", fmt.Sprintf("number tokens with %d integer x %d fraction x %d exponent digit counts (up to 4097 / 4097 / 129 digits) x sign, digit and exponent-spelling variants x %d contexts", len(numShapeLens), len(numShapeLens)+1, len(numShapeExpLens), o.numShapes), true) {
+		ctxs := [][2]string{{"", ""}, {"[", "]"}, {`{"k":`, `,"z":0}`}, {` [1, `, ` , 2] `}}[:o.numShapes]
+		buf := make([]byte, 0, 9000)
+		idx := 0
+	shapes:
+		for _, li := range numShapeLens {
+			for fi := -1; fi < len(numShapeLens); fi++ {
+				lf := 0
+				if fi >= 0 {
+					lf = numShapeLens[fi]
+				}
+				for _, le := range numShapeExpLens {
+					idx++
+					if !cfg.Mine(idx) {
+						continue
+					}
+					for ci, cx := range ctxs {
+						buf = append(buf[:0], cx[0]...)
+						buf = numShape(buf, li, lf, le, idx+ci*5)
+						buf = append(buf, cx[1]...)
+						if err := call("numshapes", buf); err != nil {
+							report("numshapes", buf, err)
+							break shapes
 						}
 					}
 				}
